@@ -7,6 +7,7 @@ package envnats
 import (
 	"errors"
 	"fmt"
+	"regexp"
 	"strings"
 	"sync"
 
@@ -44,6 +45,7 @@ type Conn struct {
 	KeepPubs bool
 	Lenient  bool      // accept invalid subscription subjects (like the repository's own mock)
 	OnPub    func(Msg) // called on the publishing thread for every successful publish
+	inbox    map[string]string
 }
 
 // Msg is a recorded publish.
@@ -55,6 +57,31 @@ type Msg struct {
 
 var ErrSubFail = errors.New("envnats: injected subscribe failure")
 var ErrPubFail = errors.New("envnats: injected publish failure")
+
+var inboxRe = regexp.MustCompile(`_INBOX\.[A-Za-z0-9]+`)
+
+// canon replaces random inbox subjects by _INBOX.#k in order of first appearance, so that observations
+// are identical across executions.
+func (c *Conn) canon(s string) string {
+	if !strings.Contains(s, "_INBOX.") {
+		return s
+	}
+	c.mu.Lock()
+	defer c.mu.Unlock()
+	return inboxRe.ReplaceAllStringFunc(s, func(m string) string {
+		if c.inbox == nil {
+			c.inbox = map[string]string{}
+		}
+		n, ok := c.inbox[m]
+		if !ok {
+			n = fmt.Sprintf("_INBOX.#%d", len(c.inbox))
+			c.inbox[m] = n
+		}
+		return n
+	})
+}
+
+func (c *Conn) emit(text string) { vsched.Emit(Mon, c.canon(text)) }
 
 // Reset drops the process-wide subscription hook registry (call between executions).
 func Reset() { nats.VerifForgetSubscriptions() }
@@ -109,7 +136,7 @@ func (c *Conn) PublishRequest(subject, reply string, payload []byte) error {
 	c.mu.Unlock()
 	if fail {
 		if !c.Quiet {
-			vsched.Emit(Mon, "pubfail "+subject)
+			c.emit("pubfail "+subject)
 		}
 		return ErrPubFail
 	}
@@ -118,9 +145,9 @@ func (c *Conn) PublishRequest(subject, reply string, payload []byte) error {
 	}
 	if !c.Quiet {
 		if reply != "" {
-			vsched.Emit(Mon, "pub "+subject+" reply="+reply+" "+string(payload))
+			c.emit("pub "+subject+" reply="+reply+" "+string(payload))
 		} else {
-			vsched.Emit(Mon, "pub "+subject+" "+string(payload))
+			c.emit("pub "+subject+" "+string(payload))
 		}
 	}
 	c.deliver(subject, reply, payload, false)
@@ -152,7 +179,7 @@ func (c *Conn) deliver(subject, reply string, payload []byte, block bool) int {
 			c.mu.Unlock()
 			if gone {
 				// the connection was closed / the subscription removed while the message was on its way
-				vsched.Note(Mon, "undeliverable "+subject)
+				vsched.Note(Mon, c.canon("undeliverable "+subject))
 				continue
 			}
 			s.Ch <- m
@@ -163,7 +190,7 @@ func (c *Conn) deliver(subject, reply string, payload []byte, block bool) int {
 			case s.Ch <- m:
 				n++
 			default:
-				vsched.Emit(Mon, "slowconsumer "+subject)
+				c.emit("slowconsumer "+subject)
 			}
 		}
 	}
@@ -174,7 +201,7 @@ func (c *Conn) deliver(subject, reply string, payload []byte, block bool) int {
 // blocking while a channel is full (the message is still on its way). It returns the number of
 // deliveries.
 func (c *Conn) Inject(subject, reply string, payload []byte) int {
-	vsched.Emit(Mon, "inject "+subject+" reply="+reply+" "+string(payload))
+	c.emit("inject "+subject+" reply="+reply+" "+string(payload))
 	return c.deliver(subject, reply, payload, true)
 }
 
@@ -187,7 +214,7 @@ type Inflight struct {
 // Send publishes a message from the outside world: it is accepted for every subscription that has
 // interest now and delivered later by Arrive.
 func (c *Conn) Send(subject, reply string, payload []byte) []Inflight {
-	vsched.Emit(Mon, "send "+subject+" reply="+reply+" "+string(payload))
+	c.emit("send "+subject+" reply="+reply+" "+string(payload))
 	var out []Inflight
 	for _, s := range c.matching(subject) {
 		out = append(out, Inflight{s, &nats.Msg{Subject: subject, Reply: reply, Data: payload, Sub: s.NS}})
@@ -202,7 +229,7 @@ func (c *Conn) Arrive(f Inflight) bool {
 	drop := f.s.dropInflight
 	c.mu.Unlock()
 	if drop {
-		vsched.Emit(Mon, "arrive-dropped "+f.m.Subject)
+		c.emit("arrive-dropped "+f.m.Subject)
 		return false
 	}
 	vsched.WaitSend(f.s.Ch)
@@ -210,11 +237,11 @@ func (c *Conn) Arrive(f Inflight) bool {
 	drop = f.s.dropInflight
 	c.mu.Unlock()
 	if drop {
-		vsched.Note(Mon, "arrive-dropped "+f.m.Subject)
+		vsched.Note(Mon, c.canon("arrive-dropped "+f.m.Subject))
 		return false
 	}
 	f.s.Ch <- f.m
-	vsched.Note(Mon, "arrived "+f.m.Subject)
+	vsched.Note(Mon, c.canon("arrived "+f.m.Subject))
 	return true
 }
 
@@ -229,11 +256,11 @@ func (c *Conn) ChanQueueSubscribe(subject, queue string, ch chan *nats.Msg) (*na
 	fail := c.FailSub[k]
 	c.mu.Unlock()
 	if fail {
-		vsched.Emit(Mon, "subfail "+subject)
+		c.emit("subfail "+subject)
 		return nil, ErrSubFail
 	}
 	if !c.Lenient && BadSubject(subject) {
-		vsched.Emit(Mon, "subbad "+subject)
+		c.emit("subbad "+subject)
 		return nil, nats.ErrBadSubject
 	}
 	s := &Sub{Subject: subject, Queue: queue, Ch: ch, Active: true}
@@ -250,7 +277,7 @@ func (c *Conn) ChanQueueSubscribe(subject, queue string, ch chan *nats.Msg) (*na
 			s.dropInflight = true
 		}
 		c.mu.Unlock()
-		vsched.Emit(Mon, fmt.Sprintf("%s %s", op, subject))
+		c.emit(fmt.Sprintf("%s %s", op, subject))
 		if !was {
 			return nats.ErrBadSubscription
 		}
@@ -259,7 +286,7 @@ func (c *Conn) ChanQueueSubscribe(subject, queue string, ch chan *nats.Msg) (*na
 	c.mu.Lock()
 	c.Subs = append(c.Subs, s)
 	c.mu.Unlock()
-	vsched.Emit(Mon, "sub "+subject+" q="+queue)
+	c.emit("sub "+subject+" q="+queue)
 	return s.NS, nil
 }
 
@@ -271,7 +298,7 @@ func (c *Conn) Close() {
 		s.dropInflight = true
 	}
 	c.mu.Unlock()
-	vsched.Emit(Mon, "close")
+	c.emit("close")
 }
 
 // ActiveSubs returns the subjects of subscriptions that still have interest.
